@@ -16,7 +16,7 @@ META = {
     "shards": {"quick": 16, "thorough": 8},
     "exhaustive_within_bound": True,
     "bounds": {
-        "quick": "2-name universes {a,b}, {bb.i,bb.o}, {a,bb.o}, {bb.i,zz.p}, {a,zz.}, {bb.o,bbx.i}, {bb.io,a} with bb(io;io) (self-loops give fan-in/fan-out counts 0,1,2 = every threshold the rules use); registry in {none, bb(i;o)}; type in 14 supported + unsupported string + missing + a non-string value; 5 flag combinations forming a pairwise covering array (every pair of flags in all four value combinations; first = defaults)",
+        "quick": "2-name universes {a,b}, {bb.i,bb.o}, {a,bb.o}, {bb.i,zz.p}, {a,zz.}, {bb.o,bbx.i}, {bb.io,a} with bb(io;io), {a,c} with a pin-less box, {bb.i,cc.j} with two same-named box types (self-loops give fan-in/fan-out counts 0,1,2 = every threshold the rules use); registry in {none, bb(i;o)}; type in 14 supported + unsupported string + missing + a non-string value; 5 flag combinations forming a pairwise covering array (every pair of flags in all four value combinations; first = defaults)",
         "thorough": "all 16 flag combinations on the 2-name universes + 3-name universe {a,b,c} with types restricted to {input, buf, and, bb_output, 0, unsupported}",
     },
     "outside": ["graphs with more names (every rule needs at most a focus node, two predecessors or two successors)", "second sentence of the property (library outputs are lint-clean) is a concrete side assertion made by every E1 harness on every circuit the library returns; C20's evidence aggregates the count from the other evidence files"],
@@ -24,7 +24,7 @@ META = {
     "rule": "state = explored path; transition = solver-decided branch",
 }
 
-UNIVERSES = {"trailing": ["a", "zz."], "plain": ["a", "b"], "pins": ["bb.i", "bb.o"], "mixed_o": ["a", "bb.o"], "mixed_i": ["bb.i", "zz.p"], "prefix": ["bb.o", "bbx.i"], "bidir": ["bb.io", "a"]}
+UNIVERSES = {"trailing": ["a", "zz."], "plain": ["a", "b"], "pins": ["bb.i", "bb.o"], "mixed_o": ["a", "bb.o"], "mixed_i": ["bb.i", "zz.p"], "prefix": ["bb.o", "bbx.i"], "bidir": ["bb.io", "a"], "nopins": ["a", "c"], "sametype": ["bb.i", "cc.j"]}
 # pairwise covering array over the four flags (every pair of flags takes all four value combinations); first row = defaults
 FLAGS_QUICK = [(True, False, True, False), (True, True, False, True), (False, False, False, True), (False, True, True, True), (False, True, False, False)]
 
@@ -179,9 +179,19 @@ def run(ctx):
         else:
             pre = sg.base_pre(vars_, types=types or (TYPES + ["UNSUPPORTED", "MISSING", "NONSTR"]))
         registry = {"bb": (["i"], ["o"])} if reg else {}
+        bbs_run = None
+        if reg and U == UNIVERSES["nopins"]:
+            registry = {"bb": ([], [])}  # a registered box without any pin (filler cell): the pin rule has nothing to ask for
+        if reg and U == UNIVERSES["sametype"]:
+            # two instances whose box definitions carry the same type name but declare different pins
+            registry = {"bb": (["i"], []), "cc": (["j"], [])}
+            bbs_run = {"bb": (["i"], [], "cell"), "cc": (["j"], [], "cell")}
         if reg and "bb.io" in U:
             registry = {"bb": (["io"], ["io"])}  # a box that lists the same pin as input and as output: no node type can satisfy both
-        if reg and "bb.i" not in U and "bb.o" in U:
+        special = U in (UNIVERSES["nopins"], UNIVERSES["sametype"], UNIVERSES["bidir"])
+        if special:
+            pass
+        elif reg and "bb.i" not in U and "bb.o" in U:
             registry = {"bb": ([], ["o"])}  # universes without the input pin: a box that only has the output pin (else the pin rule always fires)
         elif reg and "bb.o" not in U and "bb.i" in U:
             registry = {"bb": (["i"], [])}
@@ -212,7 +222,7 @@ def run(ctx):
                 res.append(("no-write", z3.BoolVal(not g_.wnode and not g_.wattr and not g_.wedge and not g_.created), "lint:writes-to-circuit", "lint modified the circuit it was called on"))
             return res
 
-        st = e2.run(ctx, "lint", U, vars_, pre, registry, op, posts, split=(sb, k), detail={"case": cid, "flags": dict(zip(("fail_fast", "unloaded", "undriven", "single_input_gates"), fl)), "registry": reg}, nonstr=True)
+        st = e2.run(ctx, "lint", U, vars_, pre, bbs_run or registry, op, posts, split=(sb, k), detail={"case": cid, "flags": dict(zip(("fail_fast", "unloaded", "undriven", "single_input_gates"), fl)), "registry": reg}, nonstr=True)
         ctx.sample({"case": cid, "universe": U, "flags": fl, "registry": reg, "paths": st["paths"]})
 
 
